@@ -129,6 +129,24 @@ def sc_mixed(rng, cid, store):
     return dict(id=cid, conf=conf, steps=steps, scenario="mixed-vs-ticker")
 
 
+def sc_gc_cycle(rng, cid, store):
+    """a hand-written index.json whose entries are listed under media types that are not manifest types and name each other as
+    referrers subject: the collection (explicit, and the one Close runs) must still come to an end"""
+    b1, b2 = b"blob-one-%d" % rng.randrange(1000), b"blob-two-%d" % rng.randrange(1000)
+    d1, d2 = dg("sha256", b1), dg("sha256", b2)
+    mt = rng.choice(["application/octet-stream", MT_LAYER, "text/plain"])
+    ents = [{"mediaType": mt, "digest": d1, "size": len(b1), "annotations": {"org.opencontainers.image.ref.name": "t1"}},
+            {"mediaType": mt, "digest": d2, "size": len(b2), "annotations": {"org.olareg.referrer.subject": d1}},
+            {"mediaType": mt, "digest": d1, "size": len(b1), "annotations": {"org.olareg.referrer.subject": d2}}]
+    rng.shuffle(ents)
+    idx = {"schemaVersion": 2, "mediaType": MT_OCI_I, "annotations": {"org.olareg.referrer.convert": "true"}, "manifests": ents}
+    seed = [dict(path="a/oci-layout", b64=b64(b'{"imageLayoutVersion":"1.0.0"}')), dict(path="a/index.json", b64=b64(jdump(idx))),
+            dict(path="a/blobs/sha256/" + d1.split(":")[1], b64=b64(b1)), dict(path="a/blobs/sha256/" + d2.split(":")[1], b64=b64(b2))]
+    steps = [tag_list("a"), dict(kind="gc", repo="a", impl=dict(op="gc", repo="a"), model="(skip)"), tag_list("a"), special("close")]
+    conf = mkconf(store="dir", withsubj=rng.choice([True, True, False]), dangling=rng.choice([False, True]), grace_ms=rng.choice([-1, 3600000]))
+    return dict(id=cid, conf=conf, steps=steps, seed=seed, scenario="gc-referrer-cycle")
+
+
 def find_hangs(res, path=""):
     """(where, text) for every stalled step, also inside par / join results"""
     out = []
@@ -150,8 +168,10 @@ def run(ctx):
     cases = []
     for _ in range(reps):
         for store in ("mem", "dir"):
-            for f, n in ((sc_waiter, 4), (sc_close_ticker, 3), (sc_uploads, 4), (sc_mixed, 5)):
+            for f, n in ((sc_waiter, 4), (sc_close_ticker, 3), (sc_uploads, 4), (sc_mixed, 5), (sc_gc_cycle, 2)):
                 for _ in range(n):
+                    if f is sc_gc_cycle and store != "dir":
+                        continue
                     cases.append(f(rng, len(cases) + 1, store))
     if ctx.replay:
         r = json.load(open(ctx.replay))
